@@ -761,13 +761,16 @@ public:
     // the livelock cap is a budget of scheduling steps: a child that writes 170 KiB read back two bytes at a time needs
     // a few hundred thousand of them legitimately (thorough tier found this as a "livelock")
     {
-      uint64_t bytes = 0;
+      uint64_t rchunk = cfg ? (uint64_t)cfg->getn("read_chunk") : 0;
       for (auto& j : plan.geta("jobs"))
         if (const Json* pr = j.find("proc"))
           for (auto& op : pr->geta("script"))
-            if (op.gets("op") == "write") bytes += (uint64_t)op.getn("n");
-      uint64_t chunk = cfg ? (uint64_t)cfg->getn("read_chunk") : 0;
-      if (chunk > 0) sc.maxSteps += bytes / chunk * 12;
+            if (op.gets("op") == "write") {
+              // the child writes `chunk` bytes at a time, the queue reads `read_chunk` at a time: the smaller one decides
+              uint64_t n = (uint64_t)op.getn("n"), wchunk = (uint64_t)op.getn("chunk");
+              uint64_t c = wchunk && rchunk ? std::min(wchunk, rchunk) : wchunk ? wchunk : rchunk;
+              if (c > 0) sc.maxSteps += n / c * 16;
+            }
     }
     sim::begin(sc);
     sim::set_role("main");
